@@ -3,18 +3,51 @@
 
   The loop of `iter_errors` prepends a keyword to an error's schema path, except for `$ref` (and
   `if`): a path through a reference object continues in the DESIGNATED schema without naming the
-  reference. Following such a path therefore hops: at a schema object that carries a string `$ref`
+  reference. Following such a path therefore hops: at a SCHEMA object that carries a string `$ref`
   the walk continues in `Spec.designated …` (the base URI in effect becoming the resolved URL), at
-  any other object it takes the member named by the next path element (the base moving with
-  `id`/`$id` as `Spec.baseInside` says), at an array the element.
+  any other schema object it takes the member named by the next path element — a keyword — (the
+  base moving with `id`/`$id` as `Spec.baseInside` says, unless the object has a `$ref` key: next
+  to `$ref` the identifier is ignored).
+
+  The walk is schema-aware: the value of a keyword is either a subschema, an array of subschemas
+  (the next path element is an index) or — for `properties`, `patternProperties`, `dependencies`,
+  `definitions` — a map from names to subschemas (the next path element is a name). Arrays and maps
+  of subschemas are containers, not schemas: a member of a `properties` map that happens to be
+  named `$ref` or `id` is neither a reference nor an identifier.
 -/
 import JS.Spec.Located
 import JS.Spec.ValidRef
 namespace JS.Spec
 
-/-- follow `path` from `cur` (base URI in effect `top`), hopping through reference objects; `n`
-    bounds the number of steps and hops; `last`: also hop when the path is exhausted (the `false`
-    schema an error of the `False` schema points at may be designated by a reference) -/
+/-- the keywords whose value is a map from names to subschemas -/
+def containerKw (k : Str) : Bool :=
+  k == "properties".toList || k == "patternProperties".toList || k == "dependencies".toList
+    || k == "definitions".toList
+
+/-- the base URI in effect inside a schema object that is not a reference: next to a `$ref` key
+    (whatever its value) the identifier is ignored -/
+def baseIn (env : Env) (d : Draft) (top : Str) (kvs : List (Str × Json)) : Str :=
+  match lookupJ "$ref" kvs with
+  | some _ => top
+  | none => baseInside env d top kvs
+
+/-- inside the value `v` of a keyword (`cont`: the keyword's value is a map of subschemas):
+    nothing left — the value itself (in `last` mode: the schema it is, followed through a final
+    reference); an index into an array of subschemas; a name in a map of subschemas; otherwise `v`
+    is itself the subschema. `go` continues the walk at a schema. -/
+def navIn (go : Json → List PathElem → Option Json) (last cont : Bool) (v : Json) :
+    List PathElem → Option Json
+  | [] => if last then go v [] else some v
+  | p :: ps =>
+    match v, p with
+    | .arr xs, .idx j => (xs[j]?).bind fun w => go w ps
+    | .obj pkvs, .key name =>
+      if cont then (Json.lookup name pkvs).bind fun w => go w ps else go v (p :: ps)
+    | _, _ => go v (p :: ps)
+
+/-- follow `path` from the schema `cur` (base URI in effect `top`), hopping through reference
+    objects; `n` bounds the number of steps and hops; `last`: also hop when the path is exhausted
+    (the `false` schema an error of the `False` schema points at may be designated by a reference) -/
 def navR (env : Env) (d : Draft) (base : List (Str × Json)) (last : Bool) :
     Nat → Str → Json → List PathElem → Option Json
   | 0, _, _, _ => none
@@ -35,13 +68,10 @@ def navR (env : Env) (d : Draft) (base : List (Str × Json)) (last : Bool) :
          | some (url, t) => navR env d base last n url t (p :: ps)
          | none =>
            match p with
-           | .key k => (Json.lookup k kvs).bind fun v => navR env d base last n (baseInside env d top kvs) v ps
+           | .key k =>
+             (Json.lookup k kvs).bind fun v =>
+               navIn (navR env d base last n (baseIn env d top kvs)) last (containerKw k) v ps
            | .idx _ => none)
-    | .arr xs =>
-      (match path with
-       | [] => some cur
-       | .idx j :: ps => (xs[j]?).bind fun v => navR env d base last n top v ps
-       | .key _ :: _ => none)
     | other => if path.isEmpty then some other else none
 
 /-- the walk reaches `v` (for some number of steps) -/
@@ -55,7 +85,10 @@ mutual
     its schema path, the recorded subschema contains that keyword with the recorded value, and
     following the absolute schema path from `s` — through references — reaches that value; an error
     of a `false` schema has no keyword and its path ends at the `false` (possibly designated).
-    Draft 3 `required` records the parent schema and the path `…/properties/<name>/required`. -/
+    Draft 3 `required` records the parent schema and the path `…/properties/<name>/required`: the
+    enclosing `properties` reads the value off the property's subschema ITSELF — not through a
+    reference that subschema may carry — so there the walk ends at the subschema object (without a
+    final hop), which holds the recorded value under `required`. -/
 def schemaLocatedR (env : Env) (d : Draft) (base : List (Str × Json)) (top : Str) (s : Json)
     (pre : List PathElem) : Err → Prop
   | .mk _ info _ sp ctx _ =>
@@ -66,7 +99,10 @@ def schemaLocatedR (env : Env) (d : Draft) (base : List (Str × Json)) (top : St
        | none => NavR env d base true top s (pre ++ sp) (.bool false) ∧ m.schema = .bool false
        | some k =>
          sp.getLast? = some (.key k)
-         ∧ NavR env d base false top s (pre ++ sp) m.kwVal
+         ∧ (NavR env d base false top s (pre ++ sp) m.kwVal
+            ∨ (k = kReq ∧ sp.length ≥ 3 ∧ ∃ skvs,
+                NavR env d base false top s (pre ++ sp.dropLast) (.obj skvs)
+                ∧ Json.lookup kReq skvs = some m.kwVal))
          ∧ (m.schema.get? k = some m.kwVal ∨ (k = kReq ∧ sp.length ≥ 3)))
       ∧ schemaLocatedRList env d base top s (pre ++ sp) ctx
 def schemaLocatedRList (env : Env) (d : Draft) (base : List (Str × Json)) (top : Str) (s : Json)
